@@ -8,10 +8,11 @@ HERE=$(cd "$(dirname "$0")/.." && pwd)
 REPO=${REPO:-/repo}; prop=$1; tier=$2; out=$3
 if [ "$tier" = thorough ]; then export STANDIN_FACTS_TEXT=${STANDIN_FACTS_TEXT:-4} STANDIN_FACTS_LEVEL=${STANDIN_FACTS_LEVEL:-2} STANDIN_FACTS_E2E=${STANDIN_FACTS_E2E:-2}; else export STANDIN_FACTS_TEXT=3 STANDIN_FACTS_LEVEL=1 STANDIN_FACTS_E2E=1; fi
 export GOGC=400
+if [ "$tier" = thorough ]; then STANDIN_TIMEOUT=7000; else STANDIN_TIMEOUT=1500; fi
 tmp=$(mktemp -d); trap 'rm -rf "$tmp"' EXIT
 printf '{"Replace":{"%s/zz_verif_standin_test.go":"%s/standins/facts_standin_test.go"}}' "$REPO" "$HERE" > "$tmp/ov.json"
 t0=$(date +%s.%N)
-res=$(cd "$REPO" && go test -tags verif -overlay "$tmp/ov.json" -vet=off -count=1 -timeout 7000s -v -run 'TestStandinFacts$' . 2>&1)
+res=$(cd "$REPO" && go test -tags verif -overlay "$tmp/ov.json" -vet=off -count=1 -timeout ${STANDIN_TIMEOUT}s -v -run 'TestStandinFacts$' . 2>&1)
 rc=$?
 secs=$(echo "$(date +%s.%N) - $t0" | bc)
 cases=$(echo "$res" | grep -o 'STANDIN-CASES [0-9]*' | awk '{print $2}'); cases=${cases:-0}
